@@ -61,7 +61,7 @@ def gen_terms(rng, name, vars_, is_step, ts_terms=False):
 
 
 def gen_scenario(rng, max_procs=4, max_steps=3, p_quiet=0.25, allow_empty=True, steps_ok=True,
-                 max_calls=4, emit_variants=True, parallel=0.0, emit_flags=False, ts_terms=False):
+                 max_calls=4, emit_variants=True, parallel=0.0, emit_flags=False, ts_terms=False, zero_calls=False):
     nvars = rng.randrange(1, 4)
     vars_ = [f'x{i}' for i in range(nvars)]
     np_ = rng.randrange(0 if allow_empty else 1, max_procs + 1)
@@ -108,6 +108,9 @@ def gen_scenario(rng, max_procs=4, max_steps=3, p_quiet=0.25, allow_empty=True, 
     calls = [[rng.choice([1, 2, 3, 4, 5, 6, 7, 9, 12]), rng.random() < 0.5] for _ in range(ncalls)]
     if rng.random() < 0.6:
         calls[-1][1] = True
+    if zero_calls and rng.random() < 0.12:
+        # a forced completion of length 0: whoever was left behind catches up, whoever is complete is left alone
+        calls.insert(rng.randrange(1, len(calls) + 1), [0, True])
     # emit_step in ticks; emitEvery iff emit_step (in time units) == 1
     if emit_variants and rng.random() < 0.4:
         emit_ticks = rng.choice([1, 2, 3, 4, 5])
